@@ -21,25 +21,27 @@ def key(t, tag):
 
 class Target(Maintainable):
     def __init__(self, name, h):
-        self.name = name
+        # key: what the harness calls the target; name: what the library sees - two machines may carry the same name
+        self.key = name
+        self.name = 'press' if h.case.get('same_names') else name
         self.h = h
 
     def get_work_order_duration(self, tag):
         # the reported duration changes from call to call (when case['vary'] is set): the order must last what
         # was reported at its start
         h = self.h
-        k = key(self.name, tag)
+        k = key(self.key, tag)
         n = h.dur_calls.get(k, 0)
         h.dur_calls[k] = n + 1
         d = h.table[k][0] + (0.5 * (n % 3) if h.case.get('vary') else 0)
-        h.calls.append(('dur', self.name, list(tag) if isinstance(tag, tuple) else tag, h.env.now, d))
+        h.calls.append(('dur', self.key, list(tag) if isinstance(tag, tuple) else tag, h.env.now, d))
         return d
 
     def get_work_order_capacity(self, tag):
-        return self.h.table[key(self.name, tag)][1]
+        return self.h.table[key(self.key, tag)][1]
 
     def get_work_order_cost(self, tag):
-        return self.h.table[key(self.name, tag)][2]
+        return self.h.table[key(self.key, tag)][2]
 
     def start_work(self, tag):
         self.h.on_start(self, list(tag) if isinstance(tag, tuple) else tag)
@@ -132,7 +134,7 @@ class Harness:
             self.bad('C12.capacity', f'capacity in use {self.util} exceeds {self.capacity}')
 
     def on_start(self, t, tag):
-        tg = t.name
+        tg = t.key
         now = self.env.now
         self.c['starts'] += 1
         if not any(a[0] == tg and a[1] == tag for a in self.active):
@@ -154,7 +156,7 @@ class Harness:
             self.request(t2, g2)
 
     def on_end(self, t, tag):
-        tg = t.name
+        tg = t.key
         now = self.env.now
         self.c['ends'] += 1
         ar = [a for a in self.active_real if a[0] == tg and a[1] == tag]
@@ -182,7 +184,7 @@ class Harness:
             if self.m.available_capacity != self.m.total_capacity:
                 raise Violation('C12.idle-capacity', f'no order is in progress at {now} but available_capacity is '
                                 f'{self.m.available_capacity!r}, total capacity {self.m.total_capacity!r}')
-            waiting = [(q.target.name, q.tag, q.needed_capacity) for q in self.m._request_queue]
+            waiting = [(q.target.key, q.tag, q.needed_capacity) for q in self.m._request_queue]
             for (tg, tag, need) in waiting:
                 if need <= self.capacity:
                     raise Violation('C12.left-waiting-idle', f'order ({tg},{tag}) needing {need} of {self.capacity} is still '
